@@ -27,6 +27,7 @@ sys.path.insert(0, HERE)
 import gen  # noqa: E402
 import compopt  # noqa: E402  (leg "compressor configuration and options block", coq/CompOpt)
 import wrap  # noqa: E402  (leg "wrap boundaries of count x element-size products", coq/C05/Wrap.v)
+import huge  # noqa: E402  (leg "huge logical sizes in tiny images": files of 2^32 bytes and more made of sparse blocks)
 
 LEVEL = "proof"
 TIMEOUT = 10
@@ -526,7 +527,10 @@ def run(ctx):
             return
         img = base64.b64decode(r["image_b64"]) if r.get("image_b64") else None
         viol = []
-        if img is not None:
+        if img is not None and r.get("leg") == "huge":
+            viol = huge.replay(ctx, e, r, run_proc, died, TIMEOUT)
+            ctx.coverage["evaluations"] = 1
+        elif img is not None:
             if r.get("ops"):
                 p = os.path.join(e.dir, "replay.sqfs")
                 open(p, "wb").write(img)
@@ -579,6 +583,11 @@ def run(ctx):
     nwrap = len(wc)
     ctx.log("wrap-boundary leg: %d images, %d executions, %d problems so far (%.1fs)" % (
         nwrap, st["runs"], len(viol), time.time() - tw))
+    # files of 2^32 bytes and more made of sparse blocks, in images of a few KiB: every tool must still make progress
+    v, st = huge.run_leg(ctx, e, random.Random(ctx.seed * 15485863 + 17), run_proc, died, model_batch, TIMEOUT)
+    viol += v
+    stats_all.append(st)
+    nhuge = st["images"]
     by_p = {}
     for nm, img, p in real_cases:
         by_p.setdefault(p, []).append((nm, img))
@@ -651,13 +660,21 @@ def run(ctx):
         "2^(W-1)/E, field maximum), references just past the real entries / in the second metadata block / medium / "
         "announced-1 / announced spread over the inodes, each dereferenced by rdsquashfs -x/-c/-s in a process of its own "
         "beside the harness modes and tool runs (same exact model tie and sanitizer oracle)." % (
-            nfield, len(reals), nmut, ctx.seed, co.get("cases", 0), nwrap))
-    ctx.coverage["distribution"] = dict(images=len(cases) + len(real_cases) + nwrap + 1, wrap_boundary_images=nwrap,
+            nfield, len(reals), nmut, ctx.seed, co.get("cases", 0), nwrap) +
+        "  Huge-size leg (props/C05/huge.py): %d Builder images of 20-140 KiB holding a regular file of 2^32 - 1, 2^32, 2^32 + 1, "
+        "2^32 + block size (+ tail), 2^33, k*2^32 + d bytes made of sparse blocks (remainder as stored last block / tail fragment; "
+        "stored first / last block; variants differing in the last / first byte; 128 KiB blocks with the exact model tie; giants "
+        "2^48, 2^63-1, 2^64-1 with a short block list): sqfsdiff img img and against the variants / a size 2^32 larger, "
+        "rdsquashfs -c and sqfs2tar to /dev/null and into a pipe closed after 1 MiB, rdsquashfs -l/-d/-s/-x, -u under a 32 MiB "
+        "file size limit, three harness modes; time-out 10 s + 5 s per started 4 GiB = hang." % nhuge)
+    ctx.coverage["distribution"] = dict(images=len(cases) + len(real_cases) + nwrap + nhuge + 1, wrap_boundary_images=nwrap,
+                                        huge_size_images=nhuge,
                                         transcripts_compared=tot["compared"],
                                         transcripts_equal=tot["agree"], not_comparable_other_codec=tot["unk"],
                                         images_with_full_tree=tot["tree_ok"], tool_runs=tot["tool_runs"],
                                         tool_verdicts_checked=tot["verdict_checked"], meta_sequences=nmeta,
                                         error_classes_reached=len(errc), nest_depth_tested=NEST_TESTED)
+    ctx.coverage["huge_size_leg"] = dict(images=nhuge, exit_codes=[st for st in stats_all if "exit_codes" in st][0]["exit_codes"])
     ctx.coverage["error_classes"] = dict(sorted(errc.items())[:60])
     ctx.add_samples([dict(image=cases[i][0], bytes=len(cases[i][1])) for i in (1, len(cases) // 2, len(cases) - 1)])
     report(ctx, viol)
